@@ -74,6 +74,7 @@ type T struct {
 	trans      int64
 	traces     int64
 	sample     string
+	wantSample bool
 	// Replay: if non-nil, explorers run exactly this choice sequence.
 	ReplayChoices []int
 	curChoices    []int
@@ -103,6 +104,13 @@ func (t *T) AddTraces(n int64) { t.traces += n }
 
 // Sample sets the rendered form of this case (kept for first/middle/last cases).
 func (t *T) Sample(s string) { t.sample = s }
+
+// SampleF is the lazy form: f is only called for the cases that are kept.
+func (t *T) SampleF(f func() string) {
+	if t.wantSample {
+		t.sample = f()
+	}
+}
 
 // SetChoices is used by the explorers so that a failure carries its schedule.
 func (t *T) SetChoices(c []int) { t.curChoices = c }
@@ -261,7 +269,7 @@ func runFamily(c *Check, f *Family, tier string, res *result, deadline time.Time
 	const chunk = 64
 	sampleIdx := map[int64]bool{0: true, n / 2: true, n - 1: true}
 	one := func(i int64) {
-		t := &T{fam: f, idx: i, Tier: tier, ReplayChoices: replay}
+		t := &T{fam: f, idx: i, Tier: tier, ReplayChoices: replay, wantSample: sampleIdx[i]}
 		func() {
 			defer func() {
 				if r := recover(); r != nil {
